@@ -847,6 +847,29 @@ func runC02(ctx *core.Ctx) {
 			}
 		}
 	}
+	// 1f. a chain with two siblings at its end (r ← m ← x, m ← y), every service adding 1–3 entries to a list that is merged
+	// by appending: the siblings must each get their own entries, whatever order they are resolved in and whatever spare
+	// capacity the lists of their base have
+	for n := 0; n < 81; n++ {
+		sizes := []int{1 + n%3, 1 + (n/3)%3, 1 + (n/9)%3, 1 + (n/27)%3}
+		var svcs [][]any
+		for i, nm := range []string{"r", "m", "x", "y"} {
+			var ref any
+			switch nm {
+			case "m":
+				ref = "r"
+			case "x", "y":
+				ref = "m"
+			}
+			var l []any
+			for j := 0; j < sizes[i]; j++ {
+				l = append(l, fmt.Sprintf("%s%d", nm, j))
+			}
+			svcs = append(svcs, []any{nm, ref, core.EncodeVal(map[string]any{"image": nm, "expose": l, "cap_drop": l})})
+		}
+		ctx.Count("extends-siblings-lists")
+		ctx.Add("c02.extends", map[string]any{"services": svcs, "reps": ctx.Pick(8, 24)})
+	}
 	ctx.Res.Exhaustive = true
 	// random extends forests / graphs over up to 5 services with random generic bodies
 	for i := 0; i < ctx.Pick(1500, 30000); i++ {
@@ -868,6 +891,13 @@ func runC02(ctx *core.Ctx) {
 				if ctx.Rng.Intn(2) == 0 {
 					body[key] = c02Scalar(ctx)
 				}
+			}
+			if ctx.Rng.Intn(3) > 0 {
+				var l []any
+				for j := ctx.Rng.Intn(3); j >= 0; j-- {
+					l = append(l, fmt.Sprintf("%s%d", nm, j))
+				}
+				body["expose"] = l
 			}
 			if ctx.Rng.Intn(2) == 0 {
 				hc := map[string]any{}
@@ -917,6 +947,7 @@ func runC02(ctx *core.Ctx) {
 		ctx.Count("mergeSeq-random")
 		ctx.Add("c02.mergeSeq", map[string]any{"a": seqArg(), "b": seqArg(), "c": seqArg(), "d": seqArg()})
 	}
+	runC02MergeRepeat(ctx)
 	for i := 0; i < ctx.Pick(6000, 100000); i++ {
 		ctx.Count("merge-random")
 		ctx.Add("c02.merge", c02MergeArgs{Base: core.EncodeVal(c02TopMap(ctx)), Over: core.EncodeVal(c02TopMap(ctx))})
